@@ -167,6 +167,14 @@ def gen_source(rng, depth=0, allow_include=True, nlines=None, files=None, macros
     for _ in range(open_ifs):
         if rng.random() < 0.9:
             out.append('#endif\n')
+    # layout of directive lines: blanks before '#', between '#' and the name; no blank between `#if` / `#elif` and
+    # an argument that starts with `!`
+    for i_, l_ in enumerate(out):
+        if l_.startswith('#') and rng.random() < 0.15:
+            l_ = rng.choice(['', ' ', '\t']) + '#' + rng.choice(['', ' ', '  ', '\t']) + l_[1:]
+            if rng.random() < 0.3:
+                l_ = l_.replace('if !', 'if!', 1)
+            out[i_] = l_
     text = ''.join(out)
     if rng.random() < 0.1 and text.endswith('\n'):
         text = text[:-1]
